@@ -330,6 +330,67 @@ def _ceil_fee(rate, vsize):
     return -((-rate * vsize) // 1000)
 
 
+TAP_SCRIPT_KINDS = ["tr-leaf", "tr-key+leaf", "tr-multi_a", "tr-miniscript"]
+
+
+def _tap_estimate_shard(combos):
+    """Taproot script-path inputs: the library may refuse to estimate (no sizer speaks for them), but an estimate it does
+    give -- with every sizer it ships, and with the psbt carrying or lacking the optional BIP371 fields -- is an upper bound."""
+    from btclib.descriptors.descriptors import miniscript_sizer
+    from btclib.script.engine import verify_transaction
+
+    st = Stats()
+    errs = lib_errors()
+    for kind, hname, strip, serving in combos:
+        case = {"kind": kind, "hash_type": hname, "stripped": strip, "bindings": serving}
+        with backend(serving):
+            st.evals += 1
+            st.states += 1
+            try:
+                base, prevouts = PC.build((kind, "wpkh"), PC.HT[hname], seq=5, lock=0, in_value=1_000_000)
+                pin = base.inputs[0]
+                if "merkle_root" in strip:
+                    pin.taproot_merkle_root = b""
+                if "internal_key" in strip:
+                    pin.taproot_internal_key = b""
+                if "key_paths" in strip:
+                    pin.taproot_hd_key_paths.clear()
+            except errs as e:
+                st.outcomes[("build-refused", repr(e)[:40])] += 1
+                continue
+            estimates = {}
+            for nm, sizer in (("none", None), ("miniscript_sizer", miniscript_sizer)):
+                try:
+                    estimates[nm] = base.weight_estimate(sizer=sizer)
+                except errs:
+                    estimates[nm] = None
+            try:
+                signed = PC.sign_all(base, (kind, "wpkh"))
+                final, tx = PC.finish(signed, (kind, "wpkh"))
+                verify_transaction(prevouts, tx)
+            except errs as e:
+                st.outcomes[("pipeline-refused", kind, tuple(strip))] += 1
+                continue
+            st.transitions += 5
+            st.nontrivial += 1
+            for nm, est in estimates.items():
+                st.outcomes[("estimate", nm, est is not None)] += 1
+                if est is not None and est < tx.weight:
+                    st.violation("C18/estimate/below-signed-weight/" + kind, dict(case, sizer=nm), est, tx.weight)
+    return st
+
+
+def tap_estimates(ctx):
+    combos = []
+    strips = [(), ("merkle_root",), ("internal_key",), ("merkle_root", "internal_key"), ("merkle_root", "internal_key", "key_paths")]
+    for serving in (True, False):
+        for kind in TAP_SCRIPT_KINDS:
+            for hname in ("DEFAULT", "ALL"):
+                for strip in strips:
+                    combos.append((kind, hname, strip, serving))
+    return ctx.pmap(_tap_estimate_shard, shard_round_robin(combos, 32))
+
+
 def _funding_shard(combos):
     from btclib.descriptors.descriptors import miniscript_sizer
     from btclib.fee import FeeRate
@@ -499,4 +560,4 @@ def dust(ctx):
     return st
 
 
-SUBS = [("tx_sizes", tx_sizes), ("block_sizes", block_sizes), ("fees", fees), ("amounts", amounts), ("dust", dust), ("funding", funding)]
+SUBS = [("tx_sizes", tx_sizes), ("block_sizes", block_sizes), ("fees", fees), ("amounts", amounts), ("dust", dust), ("funding", funding), ("tap_estimates", tap_estimates)]
